@@ -51,10 +51,21 @@ func (l *Lexer) Read() (tok token.Token) {
 		return
 	}
 
+	if !runeIsNameStart(next) {
+		// no token starts with this byte
+		tok.Keyword = keyword.UNDEFINED
+		tok.SetEnd(l.input.InputPosition, l.input.TextPosition)
+		return
+	}
+
 	l.readIdent()
 	tok.Keyword = keyword.IDENT
 	tok.SetEnd(l.input.InputPosition, l.input.TextPosition)
 	return
+}
+
+func runeIsNameStart(r byte) bool {
+	return (r >= 'a' && r <= 'z') || (r >= 'A' && r <= 'Z') || r == runes.UNDERSCORE
 }
 
 func (l *Lexer) matchSingleRuneToken(r byte, tok *token.Token) bool {
@@ -276,6 +287,10 @@ func (l *Lexer) readRune() (r byte) {
 
 	if l.input.InputPosition < l.input.Length {
 		r = l.input.RawBytes[l.input.InputPosition]
+		if r == runes.EOF {
+			// a NUL byte in the input is not the end of the input: hand out a byte nothing gives a meaning to
+			r = runes.INVALID
+		}
 
 		if r == runes.LINETERMINATOR {
 			l.input.TextPosition.LineStart++
